@@ -65,4 +65,6 @@ struct C15 : Harness {
         return res;
     }
 };
+#ifndef SKV_NO_MAIN
 int main(int argc, char **argv) { C15 h; return skv_main(argc, argv, h); }
+#endif
